@@ -178,7 +178,8 @@ func VerifH27Messages() {
 		verifAssert(err == nil, "marshal: no error")
 		var o pilosa.QueryRequest
 		verifAssert(s.Unmarshal(buf, &o) == nil, "unmarshal: no error")
-		ok := verifAnd(o.Index == m.Index, verifAnd(o.Query == m.Query, verifEqU64s(o.Shards, m.Shards)))
+		// (Index travels in the request URL; the wire message has no such field.)
+		ok := verifAnd(o.Query == m.Query, verifEqU64s(o.Shards, m.Shards))
 		ok = verifAnd(ok, verifAnd(o.ColumnAttrs == m.ColumnAttrs, verifAnd(o.Remote == m.Remote, verifAnd(o.ExcludeRowAttrs == m.ExcludeRowAttrs, o.ExcludeColumns == m.ExcludeColumns))))
 		verifAssert(ok, "QueryRequest survives encoding")
 	case 11:
@@ -186,7 +187,7 @@ func VerifH27Messages() {
 		vc := pilosa.ValCount{Val: verifVarI64("val"), Count: verifVarI64("count")}
 		n := verifVarU64("n")
 		b := verifBool("b")
-		pairs := []pilosa.Pair{{ID: verifVarU64("pid"), Count: verifVarU64("pcount")}}
+		pairs := []pilosa.Pair{{ID: verifVarU64("pid"), Key: verifStr("pkey"), Count: verifVarU64("pcount")}}
 		ids := pilosa.RowIDs(verifU64s("rowids"))
 		m := &pilosa.QueryResponse{Results: []interface{}{vc, n, b, pairs, ids}}
 		buf, err := s.Marshal(m)
@@ -205,7 +206,7 @@ func VerifH27Messages() {
 				verifAssert(verifAnd(ovc.Val == vc.Val, ovc.Count == vc.Count), "QueryResponse: ValCount survives")
 				verifAssert(on == n, "QueryResponse: count survives")
 				verifAssert(ob == b, "QueryResponse: bool survives")
-				verifAssert(len(op) == 1 && verifAnd(op[0].ID == pairs[0].ID, op[0].Count == pairs[0].Count), "QueryResponse: pairs survive")
+				verifAssert(len(op) == 1 && verifAnd(op[0].ID == pairs[0].ID, verifAnd(op[0].Key == pairs[0].Key, op[0].Count == pairs[0].Count)), "QueryResponse: pairs survive")
 				verifAssert(verifEqU64s([]uint64(oi), []uint64(ids)), "QueryResponse: row ids survive")
 			}
 		}
